@@ -143,6 +143,11 @@ def spaces(tier):
                     "N<=3, kinds {run_command, group}, jobs 1..2, one SIGCHLD may stand for two exits (second child exits "
                     "before the handler runs; the handler hands completions out last-in first-out), {default, --stop-early}",
                     depth=8, goals=["two exits delivered by one SIGCHLD"]))
+    sp.append(Space("n4-fanin-batched-stop-early", make(4, ("run_command", "group"), 2, launch=False, signals=False, batch=True),
+                    "4 tasks: a group root depending on 3 run_command tasks, every edge set among the three, par bits, --jobs 2, "
+                    "--stop-early, batched exits", depth=9,
+                    preset={"e0_3": True, "e1_3": True, "e2_3": True, "k0": 0, "k1": 0, "k2": 0, "k3": 1, "rev3": False,
+                            "stop_early": True, "jobs": 2}))
     if tier == "thorough":
         sp.append(Space("n3-allkinds-j2-all-failure-modes", make(3, graphs.ALL_KINDS, 2),
                         "N<=3 as above with all three failure modes per child", depth=8, tiers=("thorough",)))
